@@ -20,7 +20,7 @@ META = dict(
           "counting for gamma-k; gamma_cat / gamma_k equal 1 - observed/mean(chance), are <= 1, equal 1 when observed is 0 - in particular (real "
           "components) when co-aligned units never differ in category and none is unaligned; every non-combined dissimilarity is refused with TypeError.",
     trusted="z3 (nlsat); the library's conventions for degenerate cases (no counted pair: 1.0 / 0.0; zero expected disorder) are recorded, not judged",
-    bounds=dict(quick="n in {2,3} annotators x 1..2 unitary alignments (n=3: 1), abstract components; n=2 real components with symbolic coordinates",
+    bounds=dict(quick="(overall disorders of the alignments of a result object: free symbols >= 0) n in {2,3} annotators x 1..2 unitary alignments (n=3: 1), abstract components; n=2 real components with symbolic coordinates",
                 thorough="n = 4 x 1, n = 3 x 2, n = 2 x 3"),
     outside="alignments with more unitary alignments than the bound (the loop is per unitary alignment, sums are additive)",
     stubs=["positional / categorical components = one free symbol >= 0 per unit pair (abstract configs)", "ThreadPoolExecutor = deferred executor"],
